@@ -152,7 +152,7 @@ counters! {
     dom_pool_compares, dom_parsed_roots, dom_built_values, dom_cross_assign,
     // generic
     heap_leak_reexec, oracle_compares, runs_nontrivial, heap_reuse_runs, heap_blocks_reused, arena_handoffs,
-    dom_typed_handle_entries, post_cas_yields,
+    dom_typed_handle_entries, post_cas_yields, value_dropped_unwinding,
 }
 
 static COUNTERS: [AtomicU64; C::_COUNT as usize] = {
